@@ -586,7 +586,16 @@ class BasePool(typing.Generic[C]):
         started_at: float,
     ) -> None:
         self._log_to_snapshot(dbname=from_block.dbname, event='transfer-from')
-        await self._disconnect(from_conn, from_block)
+        try:
+            await self._disconnect(from_conn, from_block)
+        except Exception:
+            # The old connection is gone from the accounting either way
+            # (see _disconnect); the destination block was promised a
+            # connection in _schedule_transfer, so carry on opening it.
+            logger.exception(
+                "Failed to close a connection to backend database: %s",
+                from_block.dbname,
+            )
         from_block.log_connection('transferred out')
         self._cur_capacity += 1
         await self._connect(to_block, started_at, 'transferred in')
